@@ -73,6 +73,14 @@ func main() {
 		tableDumpMain()
 		return
 	}
+	if name == "hostile386" {
+		hostile386Main()
+		return
+	}
+	if name == "firstcalls" {
+		firstCallsMain()
+		return
+	}
 	fs := flag.NewFlagSet(name, flag.ExitOnError)
 	tier := fs.String("tier", "quick", "quick|thorough")
 	seed := fs.Int64("seed", 1, "seed")
